@@ -145,4 +145,7 @@ def run(ck):
     ck.ob('PROV-centre-weight', mod.loc(rm), ok, 'centre weight: the force field\'s center_weight variable when none was configured, none when switched off, else the configured attribute',
           key='PROV-centre-weight|source')
     constituents_rule(ck)
+    from .c01 import weight_rules
+    weight_rules(ck)
+    # the weight table stored on the particle is the table itself (null weights included), not a filtered copy
     ck.assume('the arithmetic of numpy.average and rigid-motion equivariance are not decided')
